@@ -743,7 +743,16 @@ class C02(SpecProp):
             kind = kw.pop('kind', 'str' if n % 2 == 0 else 'slice')
             tag = 'w' if ill_formed_bounds(g) else 's'
             lines.append(case_line(f'{tag}{n}', g, inputs, kind=kind, **kw))
-        return lines
+        # `collect()` into the other order-preserving containers (LinkedList, VecDeque, Box<Vec>, RefCell<Vec>, Cell<Vec>): the
+        # same items in the same order (case ids `…~kN`; the model knows one `collect`)
+        extra = []
+        for l in lines:
+            if ' collect vec ' in l and l[0] == 's':
+                cid = l.split(' ', 1)[0]
+                extra.append(l.replace(cid, f'{cid}~k{len(extra) % 5 + 1}', 1))
+            if len(extra) >= (200 if tier == 'quick' else 2000):
+                break
+        return lines + extra
 
     def compare(self, line, k, impl_M, model_M, spec_S):
         res = super().compare(line, k, impl_M, model_M, spec_S)
